@@ -80,6 +80,10 @@ func (d *Document) GenerateTOC(config *TOCConfig) error {
 		config = DefaultTOCConfig()
 	}
 
+	// 记住本次配置：UpdateTOC 按生成目录时请求的标题和级别重建，而不是按默认配置
+	remembered := *config
+	d.tocConfig = &remembered
+
 	// 收集标题信息
 	entries := d.collectHeadings(config.MaxLevel)
 
@@ -101,6 +105,15 @@ func (d *Document) GenerateTOC(config *TOCConfig) error {
 	return nil
 }
 
+// tocUpdateConfig 返回 UpdateTOC 使用的配置：最近一次 GenerateTOC 的配置，没有时为默认配置
+func (d *Document) tocUpdateConfig() *TOCConfig {
+	if d.tocConfig != nil {
+		config := *d.tocConfig
+		return &config
+	}
+	return DefaultTOCConfig()
+}
+
 // UpdateTOC 更新目录
 func (d *Document) UpdateTOC() error {
 	// 查找现有目录SDT
@@ -116,7 +129,7 @@ func (d *Document) UpdateTOC() error {
 		d.removeTOCEntries(tocStart)
 
 		// 重新生成目录条目
-		config := DefaultTOCConfig()
+		config := d.tocUpdateConfig()
 		entries := d.collectHeadings(config.MaxLevel)
 		for _, entry := range entries {
 			if err := d.addTOCEntry(entry, config); err != nil {
@@ -127,8 +140,8 @@ func (d *Document) UpdateTOC() error {
 	}
 
 	// 处理SDT类型的TOC
-	// 使用默认TOC配置
-	config := DefaultTOCConfig()
+	// 使用生成目录时的配置（打开的文档没有记录时使用默认配置）
+	config := d.tocUpdateConfig()
 
 	// 重新收集标题信息
 	entries := d.collectHeadings(config.MaxLevel)
